@@ -444,3 +444,48 @@ func fillBFS(rep *vk.Report, res BFSResult, rule string) {
 		rep.Sample(p)
 	}
 }
+
+// Topics whose levels are empty (a trailing or leading separator, two separators in a row) are distinct full strings:
+// "a/b" and "a/b/" are two topics. Both stores to fixpoint over six such keys and two values.
+var c19EmptyLevelKeys = []string{"a", "a/", "a/b", "a/b/", "/a", "a//b"}
+
+func TestC19EmptyLevels(t *testing.T) {
+	rep := vk.NewReport("C19", "C19/empty-levels", "E1-bfs")
+	keys := c19EmptyLevelKeys
+	vals := []string{"x", ""}
+	var tops, sops []c19op
+	for _, k := range keys {
+		for _, v := range vals {
+			tops = append(tops, c19op{"ins", k, v})
+			sops = append(sops, c19op{"ups", k, v})
+		}
+	}
+	for _, k := range keys {
+		tops = append(tops, c19op{"rem", k, ""})
+	}
+	tops = append(tops, c19op{kind: "rt"})
+	sops = append(sops, c19op{kind: "rt"})
+	res := BFS(BFSConfig{
+		New:      func() Sys { return &topicsSys{st: topics.NewTree(), model: kvModel{}, keys: keys, ops: tops} },
+		NumOps:   len(tops),
+		OpName:   func(i int) string { return tops[i].String() },
+		Deadline: vk.Deadline(120e9, 900e9), Parallel: true,
+	}, rep)
+	res2 := BFS(BFSConfig{
+		New:      func() Sys { return &subsSys{st: subscriptions.NewTree(), model: kvModel{}, keys: keys, ops: sops} },
+		NumOps:   len(sops),
+		OpName:   func(i int) string { return sops[i].String() },
+		Deadline: vk.Deadline(120e9, 900e9), Parallel: true,
+	}, rep)
+	res.States += res2.States
+	res.Transitions += res2.Transitions
+	res.Nontrivial += res2.Nontrivial
+	res.Exhaustive = res.Exhaustive && res2.Exhaustive
+	res.Caps = append(res.Caps, res2.Caps...)
+	fillBFS(rep, res, "all reachable states of topics.Store (Insert x|empty / Remove / dump+load) and of subscriptions.Tree (Upsert x|empty / dump+load) over keys with empty levels "+strings.Join(keys, ",")+"; after every transition every key is looked up (Match / Walk), counted and iterated against a plain map")
+	rep.Bounds["keys"] = keys
+	rep.Floor("states", 100, res.States)
+	if err := rep.Write(); err != nil {
+		t.Fatal(err)
+	}
+}
